@@ -440,6 +440,12 @@ class Multiplexer(wiring.Component):
                 for chunk_offset, chunk_registers in registers.items():
                     chunk = Multiplexer._Shadow.Chunk(self, chunk_offset, chunk_registers)
                     self._chunks[chunk_offset] = chunk
+            elif self._size > max(reg_range.stop for reg_range in ranges):
+                # Every address bit already takes part in decoding; growing the shadow further
+                # cannot separate the registers that still share a chunk (this happens with
+                # registers that are not naturally aligned). Settle for the current balance.
+                self.overlaps = max(len(chunk_registers) for chunk_registers in registers.values())
+                self.prepare()
             else:
                 self._size *= 2
                 self.prepare()
